@@ -164,3 +164,56 @@ fn b_format_string_w28() {
     kani::cover!(el == N + 2);
     kani::cover!(el == N + 3 && src[31] == b'"');
 }
+
+/// C09/C02/C01 U-inplace: the in-place decoder of the whole-input DOM parse on a 6-byte symbolic
+/// document followed by the real 64-byte padding (`x"x` + zeros): accept/reject, the decoded
+/// bytes (compacted in place), their length and the final cursor equal the reference decoder
+/// run over the padded buffer; every 32-byte load and every store stays inside the padded
+/// buffer (Kani's pointer checks) - i.e. the padding is sufficient.
+fn inplace_body<const N: usize, const M: usize>(lossy: bool) {
+    let doc: [u8; N] = kani::any();
+    let mut buf = [0u8; M];
+    let mut i = 0;
+    while i < N {
+        buf[i] = doc[i];
+        i += 1;
+    }
+    buf[N] = b'x';
+    buf[N + 1] = b'"';
+    buf[N + 2] = b'x';
+    let orig = buf;
+    let mut out = [0u8; 16];
+    let expect = ref_decode_string(&orig, N + 3, 0, lossy, &mut out);
+    let base = buf.as_mut_ptr();
+    let mut src = base;
+    let r = unsafe { parse_string_inplace(&mut src, lossy) };
+    match (&r, expect) {
+        (Ok(cnt), Some((end, len))) => {
+            assert_eq!(*cnt, len);
+            assert_eq!(unsafe { src.offset_from(base) } as usize, end);
+            let k: usize = kani::any();
+            kani::assume(k < len);
+            assert_eq!(buf[k], out[k]);
+        }
+        (Err(_), None) => {}
+        _ => panic!("parse_string_inplace: accept/reject differs from the reference decoder"),
+    }
+    kani::cover!(matches!(&r, Ok(c) if *c == 1) && doc[0] == b'\\');
+    kani::cover!(matches!(&r, Ok(c) if *c == N + 1));
+    kani::cover!(r.is_err() && doc[0] == b'\\' && doc[1] == b'u');
+    kani::cover!(matches!(&r, Ok(c) if *c == 3) && doc[0] == b'\\' && doc[1] == b'u');
+}
+
+#[kani::proof]
+#[kani::unwind(5)]
+#[kani::stub(core::arch::x86_64::_mm_max_epu8, crate::verif_kmodels::mm_max_epu8)]
+fn u_parse_string_inplace_n6() {
+    inplace_body::<6, 70>(false);
+}
+
+#[kani::proof]
+#[kani::unwind(5)]
+#[kani::stub(core::arch::x86_64::_mm_max_epu8, crate::verif_kmodels::mm_max_epu8)]
+fn u_parse_string_inplace_lossy_n6() {
+    inplace_body::<6, 70>(true);
+}
